@@ -397,6 +397,17 @@ func checkIngressFilter(c *Ctx) {
 			ok, detail = false, fmt.Sprintf("default backend: %d ids appended where %d expected (backend nil=%v, name empty=%v)", apps, want, beNil, nameEmpty)
 		}
 	}
+	sawDefault := false
+	for _, pa := range pre {
+		for _, e := range pa.Effects {
+			if e.Kind == "append" {
+				sawDefault = true
+			}
+		}
+	}
+	if !sawDefault {
+		ok, detail = false, "the default backend (Spec.Backend) never contributes a service id"
+	}
 	c.check(ok, rule, "types/ingress:buildServicesFilter/default-backend", pos, "", "buildServicesFilter: "+detail)
 	// inner loop: every non-empty path backend → id (ns(ing), service); nothing else decides
 	ips := (&Walker{P: c.P}).LoopRegion(fn, inner)
@@ -461,6 +472,18 @@ func checkIngressFilter(c *Ctx) {
 			_, isEmpty := eqConst(t, `""`)
 			if !isMore && !isNil && !isEmpty {
 				okO, detO = false, "a rule/path is skipped on a condition other than `HTTP == nil` / empty service name: "+l.String()
+			}
+		}
+		// the paths loop is entered exactly when the rule has an HTTP section
+		if (pa.End.Kind == "stop" || pa.End.Kind == "cycle") && pa.End.Block == inner.Header {
+			httpNonNil := false
+			for _, l := range pa.Lits {
+				if x, isNil := isNilTest(l.T); isNil && strings.HasSuffix(x.Key(), ".HTTP") && !l.Val {
+					httpNonNil = true
+				}
+			}
+			if !httpNonNil {
+				okO, detO = false, "the loop over HTTP paths is entered without the rule's HTTP section having been found non-nil"
 			}
 		}
 		if pa.End.Kind == "stop" && !outer.Body[pa.End.Block] {
@@ -664,6 +687,17 @@ func checkKindFilters(c *Ctx) {
 		}
 		c.check(ok, rule, "types/event:InvolvedFilter/fields-from-arguments-in-order", c.P.fnPos(fn), "", "InvolvedFilter(kind, ns, name) does not store its arguments in the same-named fields")
 	}
+	if fn := c.mustFunc("types/event", "InvolvedObjectFilter"); fn != nil {
+		ok := false
+		for _, pa := range pathsOf(c, fn) {
+			if len(pa.End.Results) == 1 {
+				if a, isC := isCall(pa.End.Results[0], "types/event:InvolvedFilter"); isC && len(a) == 3 {
+					ok = a[1].K == "invoke" && a[1].S == "GetNamespace" && a[2].K == "invoke" && a[2].S == "GetName" && sameTerm(a[1].A[0], a[2].A[0]) && termContains(a[0], func(x *Term) bool { return x.K == "invoke" && x.S == "GetObjectKind" || x.IsField("Kind") })
+				}
+			}
+		}
+		c.check(ok, rule, "types/event:InvolvedObjectFilter/(kind,namespace,name)-of-the-object", c.P.fnPos(fn), "", "InvolvedObjectFilter does not build InvolvedFilter(kind of obj, obj.GetNamespace(), obj.GetName())")
+	}
 	// serviceForFilter.Accept
 	if fn := c.mustFunc("types/service", "serviceForFilter.Accept"); fn != nil {
 		lp := findLoops(fn)
@@ -691,6 +725,17 @@ func checkKindFilters(c *Ctx) {
 					}
 				} else if !(svcKnown && isSvc) {
 					ok, detail = false, "objects of another kind reach the matching loop"
+				} else {
+					// both emptiness tests must have been passed (each alone rejects)
+					nonEmpty := 0
+					for _, l := range pa.Lits {
+						if x, okk := eqConst(l.T, "0"); okk && x.K == "len" && !l.Val {
+							nonEmpty++
+						}
+					}
+					if nonEmpty < 2 {
+						ok, detail = false, "the matching loop is reached without both the service selector and the target having been found non-empty (an empty selector would match everything)"
+					}
 				}
 			}
 			ips := (&Walker{P: c.P}).IterRegion(fn, lp[0])
